@@ -32,11 +32,22 @@ type c13Case struct {
 	RefuseEvery int `json:"refuse_every,omitempty"`
 	// RsetDrop: the first RSET that abandons a refused message is answered 421 and the connection dropped.
 	RsetDrop bool `json:"rset_drop,omitempty"`
+	// CutEvery > 0: every n-th goroutine sends BIG messages (64 KiB) through DialAndSend, and the server
+	// closes their connection after 3000 bytes of content. They must fail cleanly; everybody else's
+	// messages are unaffected and carry nothing of the cut ones.
+	CutEvery int `json:"cut_every,omitempty"`
 }
 
-func c13Msg(token string, refused bool) *mail.Msg {
+func c13Msg(token string, refused, cut bool) *mail.Msg {
 	m := mail.NewMsg()
 	_ = m.From(token + "@sender.verif.example")
+	if cut {
+		_ = m.To("cut-"+token+"@rcpt.verif.example", "cut-"+token+"b@rcpt.verif.example")
+		m.Subject("subject " + token)
+		m.SetMessageIDWithValue(token + ".mid@sender.verif.example")
+		m.SetBodyString(mail.TypeTextPlain, "body of "+token+"\r\n"+strings.Repeat("line of "+token+" in a message that is cut off\r\n", 1400))
+		return m
+	}
 	if refused {
 		_ = m.To("reject-"+token+"@rcpt.verif.example", "reject-"+token+"b@rcpt.verif.example")
 	} else {
@@ -56,6 +67,9 @@ func c13Run(c c13Case) []*core.Violation {
 	old := runtime.GOMAXPROCS(c.Procs)
 	defer runtime.GOMAXPROCS(old)
 	script := refsmtp.Script{Caps: []string{"8BITMIME"}, JitterUS: c.JitterUS, NoGreetProbe: true, RejectRcptPrefix: "reject-"}
+	if c.CutEvery > 0 {
+		script.DropDataRcptPrefix, script.DropInData = "cut-", 3000
+	}
 	if c.RsetDrop {
 		script.Steps = map[string]refsmtp.Outcome{"rsetabandon#1": {Kind: "dropafter", Code: 421, Text: "4.7.0 too many errors"}}
 	}
@@ -104,13 +118,17 @@ func c13Run(c c13Case) []*core.Violation {
 			for k := 0; k < c.MsgsPer; k++ {
 				tok := fmt.Sprintf("tokg%dm%dz", g, k)
 				refused := c.RefuseEvery > 0 && g%c.RefuseEvery == 0
-				mine = append(mine, &sent{token: tok, msg: c13Msg(tok, refused), refused: refused})
+				cut := c.CutEvery > 0 && g%c.CutEvery == 1
+				mine = append(mine, &sent{token: tok, msg: c13Msg(tok, refused, cut), refused: refused || cut})
 			}
 			mu.Lock()
 			all = append(all, mine...)
 			mu.Unlock()
 			<-start
 			useDial := c.DialEvery > 0 && g%c.DialEvery == c.DialEvery-1
+			if c.CutEvery > 0 && g%c.CutEvery == 1 {
+				useDial = true // the cut happens on a connection of its own
+			}
 			if c.Batch || useDial {
 				var ms []*mail.Msg
 				for _, s := range mine {
@@ -173,7 +191,7 @@ func c13Run(c c13Case) []*core.Violation {
 			}
 		}
 	}
-	faulty := c.RefuseEvery > 0
+	faulty := c.RefuseEvery > 0 || c.CutEvery > 0
 	for _, s := range all {
 		delivered := s.msg.IsDelivered()
 		switch {
@@ -208,7 +226,7 @@ func c13Run(c c13Case) []*core.Violation {
 	}
 	jit := len(c.JitterUS) > 0
 	if c.Goroutines >= 4 && jit {
-		rec.NonTrivial(core.Join(c.Goroutines, c.MsgsPer, c.DialEvery, fmt.Sprint(c.JitterUS), c.Procs, c.Batch, c.Auth, c.RefuseEvery, c.RsetDrop))
+		rec.NonTrivial(core.Join(c.Goroutines, c.MsgsPer, c.DialEvery, fmt.Sprint(c.JitterUS), c.Procs, c.Batch, c.Auth, c.RefuseEvery, c.RsetDrop, c.CutEvery))
 		rec.Sample(fmt.Sprintf("%d/%d", c.Goroutines/16, c.DialEvery), map[string]interface{}{"case": c, "connections": len(d.Sessions), "messages": len(all)})
 	}
 	rec.AddExtra("messages_sent", len(all))
@@ -227,6 +245,9 @@ func c13Gen(t *rapid.T) c13Case {
 		c.RsetDrop = rapid.IntRange(0, 2).Draw(t, "rsetdrop") == 0
 		c.DialEvery = 0
 	}
+	if c.RefuseEvery == 0 && rapid.IntRange(0, 4).Draw(t, "cut") == 0 {
+		c.CutEvery = rapid.SampledFrom([]int{2, 3, 4}).Draw(t, "cutevery")
+	}
 	c.Auth = rapid.SampledFrom([]string{"", "", "LOGIN-NOENC", "CRAM-MD5", "SCRAM-SHA-256"}).Draw(t, "auth")
 	if c.Auth != "" && c.DialEvery == 0 {
 		c.DialEvery = 2 // authentication only matters for calls that dial
@@ -239,7 +260,7 @@ func c13Gen(t *rapid.T) c13Case {
 
 func TestC13(t *testing.T) {
 	rec := core.Rec("C13")
-	rec.Rule = "rapid draws (goroutines 2..64, 1..4 messages per goroutine, per-call or batched Send on the shared connection, every n-th goroutine using DialAndSend on the same Client, optionally SMTP AUTH (LOGIN, CRAM-MD5 or SCRAM-SHA-256 against a verifying reference server, so that shared authenticator state shows), a per-reply latency jitter plan for the server, GOMAXPROCS in {2, 4, 16}); the binary is built with -race. One run in four mixes in messages whose recipients the server refuses (optionally with the abandoning RSET answered 421 + disconnect): the refused ones must fail cleanly, the others must be unaffected (or, after the disconnect, fail cleanly), and no call may hang. Every message carries a unique token in its sender, recipients, subject and body. " +
+	rec.Rule = "rapid draws (goroutines 2..64, 1..4 messages per goroutine, per-call or batched Send on the shared connection, every n-th goroutine using DialAndSend on the same Client, optionally SMTP AUTH (LOGIN, CRAM-MD5 or SCRAM-SHA-256 against a verifying reference server, so that shared authenticator state shows), a per-reply latency jitter plan for the server, GOMAXPROCS in {2, 4, 16}); the binary is built with -race. One run in four mixes in messages whose recipients the server refuses (optionally with the abandoning RSET answered 421 + disconnect): the refused ones must fail cleanly, the others must be unaffected (or, after the disconnect, fail cleanly), and no call may hang. One run in five has every n-th goroutine send 64 KiB messages through DialAndSend whose connection the server closes after 3000 bytes of content: they fail cleanly and nothing of them shows up in anybody else's message. Every message carries a unique token in its sender, recipients, subject and body. " +
 		"Oracle: per connection, the reference server's automaton sees no interleaved transaction (nested MAIL etc.); every committed payload carries exactly its own envelope and complete content; every token is committed exactly once; every Send returned nil and every Msg is delivered; any report of the Go race detector is a violation. " +
 		"Non-trivial: >= 4 goroutines with jitter enabled. Distinct by the drawn parameters."
 	rec.Assumptions = []string{"the harness does not own the Go scheduler: schedules are varied through GOMAXPROCS, goroutine counts and server latency only", "the race detector only sees the executions that happen"}
